@@ -448,15 +448,19 @@ def describeClauses (p p' : Core) (rs : List Report) : DescribeClauses :=
       | none => true)
     cstateComplete := p'.tabs.cstates.all (fun s => lookupBy (·.h) p.tabs.cstates s.h == some s ||
       (contextReportStates rs).contains s)
-    cstateRemoved := p.tabs.cstates.all (fun s => (lookupBy (·.h) p'.tabs.cstates s.h).isSome || del.contains s.dh)
+    -- a context state disappears through a DELETE part of its descriptor or through an UPDATE part of its (context)
+    -- descriptor that does not list it any more
+    cstateRemoved := p.tabs.cstates.all (fun s => (lookupBy (·.h) p'.tabs.cstates s.h).isSome || del.contains s.dh ||
+      ps.any (fun q => q.mod == .update && q.descr.kind == Kind.context && q.descr.handle == s.dh &&
+        !q.cstates.any (fun x => x.h == s.h && x.dh == q.descr.handle)))
     -- a context state stays with its descriptor
     cstateStable := p'.tabs.cstates.all (fun s =>
       match lookupBy (·.h) p.tabs.cstates s.h with
       | some old => old.dh == s.dh
       | none => true)
-    -- an UPDATE part of a context descriptor lists every context state of that descriptor
+    -- an UPDATE part of a context descriptor lists every remaining context state of that descriptor
     ctxUpdateLists := ps.all (fun q => !(q.mod == .update && q.descr.kind == Kind.context) ||
-      (p.tabs.cstates ++ p'.tabs.cstates).all (fun c => c.dh != q.descr.handle ||
+      p'.tabs.cstates.all (fun c => c.dh != q.descr.handle ||
         q.cstates.any (fun x => x.h == c.h && x.dh == q.descr.handle))) }
 
 def DescribeClauses.all (c : DescribeClauses) : Bool :=
